@@ -30,6 +30,16 @@ class Inst:
         self._vals = [self.de] + [v for row in self.d for m in row for r in m for v in r]
         self.rescale(extra_values)
 
+    @classmethod
+    def shape_only(cls, cont):
+        """sizes and unit numbering only (no costs): enough to map n-tuples to index tuples"""
+        self = cls.__new__(cls)
+        self.ann = units_of(cont)
+        self.n = len(self.ann)
+        self.sizes = [len(us) for _, us in self.ann]
+        self.nunits = sum(self.sizes)
+        return self
+
     def rescale(self, extra_values=()):
         vals = list(self._vals) + [frac(v) for v in extra_values]
         self.k = max([dyadic_exp(v) for v in vals] + [0])
